@@ -12,7 +12,14 @@ Tie to the source:
       normalisation shapes, interleaved with model.update_parameter by the "user") are run on the
       implementation and on the Gallina model (vm_compute inside Coq), outputs compared exactly;
   (3) an independent oracle (fix-point resolver over exact integers/Fractions; shares nothing with the
-      Coq model) judges the PROPERTY on every output of the implementation.
+      Coq model) judges the PROPERTY on every output of the implementation;
+  (4) a second oracle-only stream (harness/c10_assign.py): parameters given by initial assignments whose
+      definition changes between segments / among the reads.
+
+Two recorded findings have proposed repairs that are NOT applied; the check is delivered in snapshot position:
+  coq/simres/ExpectedFacts.v (PKFirst | PKRows) is the expected shape of get_producers/get_consumers, and the
+  oracle excuses the shape of a finding only while it is recorded in known_findings.json
+  (tools/c10_switch.py prodcons|assign snapshot|repaired <commit>; design/C10.md "Lead to-do").
 """
 
 from __future__ import annotations
@@ -164,7 +171,7 @@ _VIEWS = {
 _MODEL = {
     "update_parameter": "if name not in self._parameters:\n    msg = f'{name!r} not found in parameters'\n    raise KeyError(msg)\nparameter = self._parameters[name]\nif value is not None:\n    parameter.value = value\nif unit is not None:\n    parameter.unit = unit\nif source is not None:\n    parameter.source = source\nreturn self",
     "update_parameters": "for k, v in parameters.items():\n    if isinstance(v, Parameter):\n        self.update_parameter(k, value=v.value, unit=v.unit, source=v.source)\n    else:\n        self.update_parameter(k, v)\nreturn self",
-    "get_parameter_values": "if (cache := self._cache) is None:\n    cache = self._create_cache()\nreturn cache.base_parameter_values",
+    "get_parameter_values": "if (cache := self._cache) is None:\n    cache = self._create_cache()\nreturn dict(cache.base_parameter_values)",
     "get_arg_names": "names = []\nif include_time:\n    names.append('time')\nif include_variables:\n    names.extend(self.get_variable_names())\nif include_parameters:\n    names.extend(self.get_parameter_names())\nif include_derived_variables:\n    names.extend(self.get_derived_variable_names())\nif include_derived_parameters:\n    names.extend(self.get_derived_parameter_names())\nif include_reactions:\n    names.extend(self.get_reaction_names())\nif include_surrogate_variables:\n    names.extend(self.get_surrogate_output_names(include_fluxes=False))\nif include_surrogate_fluxes:\n    names.extend(self.get_surrogate_reaction_names())\nif include_readouts:\n    names.extend(self.get_readout_names())\nreturn names",
     "_get_args": "args = cache.all_parameter_values | variables | self._data\nargs['time'] = time\ncontainers = self._derived | self._reactions | self._surrogates\nfor name in cache.dyn_order:\n    containers[name].calculate_inpl(name, args)\nfor k in self._data:\n    args.pop(k)\nreturn cast(dict[str, float], args)",
     "_get_args_time_course": "if (cache := self._cache) is None:\n    cache = self._create_cache()\nargs_by_time = {}\nfor time, values in variables.iterrows():\n    args = self._get_args(variables=values.to_dict(), time=cast(float, time), cache=cache)\n    if include_readouts:\n        for name, ro in self._readouts.items():\n            ro.calculate_inpl(name, args)\n    args_by_time[time] = args\nreturn args_by_time",
@@ -1108,6 +1115,19 @@ def check(run: Run) -> None:
         "segments and by user edits among the reads in 60% of the cases"
     )
     proofs_ok = run.check_proofs(AREA, PROPS)
+    if run.broken_obligations and all(b.startswith("coqchk rejected") for b in run.broken_obligations):
+        # thorough tier only: the independent checker re-reads every .vo of the area; a second process compiling in
+        # coq/simres at the same moment (another `./check C10`, a --regen) hands it a half-written file (seen once:
+        # "Type error" on files that coqc had just accepted and that coqchk accepts when run alone).  A genuine
+        # rejection is deterministic: re-run the checker once on the quiescent files and keep that verdict.
+        import time
+
+        first = list(run.broken_obligations)
+        run.broken_obligations.clear()
+        time.sleep(3)
+        run._coqchk(AREA, PROPS)  # noqa: SLF001
+        proofs_ok = not run.broken_obligations
+        run.note(f"coqchk was re-run once after: {first[0][:200]} -> {'accepted' if proofs_ok else 'rejected again'}")
     run.assumptions += [
         "Coq 8.16.1 kernel + vm_compute; Print Assumptions of every theorem is recorded in trusted_base",
         "fact extractor harness/c10.py::extract_facts (fail-closed comparison of normalised ASTs of the anchored functions)",
